@@ -123,7 +123,14 @@ def gen_family(rng, measure=None, subpix=None, tall=False):
         b = rng.randrange(a, b2 + 1)
     gmin = [[rng.randrange(a2, b2 + 1) for _ in range(cols)] for _ in range(rows)]
     gmax = [[rng.randrange(gmin[r][c], b2 + 1) for c in range(cols)] for r in range(rows)]
-    if rng.random() < 0.3:                           # grids whose hull is strictly inside J
+    shape = rng.random()
+    if shape < 0.15:                                 # only the upper bound varies from pixel to pixel
+        gmin = [[a2] * cols for _ in range(rows)]
+        gmax = [[rng.randrange(a2, b2 + 1) for _ in range(cols)] for _ in range(rows)]
+    elif shape < 0.3:                                # only the lower bound varies
+        gmax = [[b2] * cols for _ in range(rows)]
+        gmin = [[rng.randrange(a2, b2 + 1) for _ in range(cols)] for _ in range(rows)]
+    elif rng.random() < 0.3:                         # grids whose hull is strictly inside J
         lo, hi = min(a2 + 1, b2), b2
         gmin = [[min(max(v, lo), hi) for v in row] for row in gmin]
         gmax = [[max(gmax[r][c], gmin[r][c]) for c in range(cols)] for r in range(rows)]
@@ -541,7 +548,8 @@ def gen_pipeline_case(rng, free=False):
     gen = gen_free_pipeline if free else gen_pipeline
     return {"kind": "pipeline", "fam": {k: fam[k] for k in ("measure", "window", "subpix", "rows", "cols", "left", "right",
                                                           "mask_l", "mask_r")},
-            "disp": [a, b], "grids": grids, "pipeline": gen(rng, fam["measure"], fam["subpix"])}
+            "disp": [a, b], "grids": grids, "pipeline": gen(rng, fam["measure"], fam["subpix"]),
+            "bd_rev": rng.random() < 0.3}
 
 
 POST_KINDS = ("disparity", "refinement", "filter", "validation")
@@ -623,6 +631,13 @@ def run_pipeline_case(ctx, pc):
         right.coords["band_disp"] = ["min", "max"]
         right["disparity"] = xr.DataArray(np.array([-np.array(gmax, dtype=np.float32), -np.array(gmin, dtype=np.float32)]),
                                           dims=["band_disp", "row", "col"])
+    if pc.get("bd_rev"):
+        # the same labelled request stored with its two bands in the other order (["max", "min"]): datasets are read
+        # by LABEL (check_datasets selects by label), never by position
+        left = left.isel(band_disp=[1, 0])
+        if "disparity" in right:
+            right = right.isel(band_disp=[1, 0])
+        ctx.count("pipelines_with_band_disp_stored_max_min")
     cfg = {"pipeline": {n: dict(c) for n, c in pc["pipeline"]}}
     ctx.count("pipelines")
     for n in names:
@@ -634,6 +649,11 @@ def run_pipeline_case(ctx, pc):
         ctx.case(None)
         ctx.count("pipeline_raised_" + type(exc).__name__)
         ctx.notes.append(f"pipeline {names} raised {type(exc).__name__}: {str(exc)[:100]}")
+        # a legal pipeline on a well-formed pair with a well-formed request: the request is not honoured at all
+        ctx.violation("pipeline_raises", f"pipeline {names} ({fam['measure']}, subpix {fam['subpix']}) on {fam['rows']}x"
+                      f"{fam['cols']}, interval {pc['disp']}{' / per-pixel grids' if pc['grids'] else ''}"
+                      f"{', band_disp stored [max, min]' if pc.get('bd_rev') else ''}: pandora.run raised "
+                      f"{type(exc).__name__}: {str(exc)[:120]}", pc)
         return
     ctx.traces += 1
     dmin, dmax = mu.case_global_interval(case)
